@@ -131,6 +131,7 @@ func c27(c *an.Check) {
 			}},
 		}})
 	pubmessageObligations(c)
+	signedMsgCore(c)
 	floodsubLockset(c)
 }
 
